@@ -557,9 +557,10 @@ class PrioritizedReplayBuffer(LAP):
             size=batch_size
         )
 
-        # the upper end of the last segment can exceed the total by an ulp
-        self.priority.sampled_indices = np.minimum(
-            np.searchsorted(probabilities, random_points), current_len - 1
+        # the upper end of the last segment can exceed the total by an ulp:
+        # a point at the total belongs to the last entry of positive priority
+        self.priority.sampled_indices = np.searchsorted(
+            probabilities, np.minimum(random_points, probabilities[-1])
         )
         return self.priority.sampled_indices
 
